@@ -13,12 +13,26 @@ package symgo
 import (
 	"fmt"
 	"go/types"
+	"os"
 	"strings"
 
 	"golang.org/x/tools/go/ssa"
 )
 
 type threadKilled struct{}
+
+var schedDebug = os.Getenv("SYMGO_SCHED_DEBUG") != ""
+
+type sendOffer struct {
+	ch  chan value
+	v   value
+	idx int
+}
+
+type handoff struct {
+	ch chan value
+	v  value
+}
 
 type gthread struct {
 	id      int
@@ -27,15 +41,19 @@ type gthread struct {
 	parked  bool
 	depth   int
 	enabled func() bool // nil when runnable; the condition it waits for otherwise
+	// rendezvous on unbuffered channels: what the parked goroutine offers and awaits, and
+	// what a partner has already done for it
 	recvOn  []chan value
+	sendOn  []sendOffer
+	got     *handoff
+	sentIdx int
+	pos     string // where it parked (diagnostics)
 }
 
 type chanState struct {
 	buf      []value
 	capacity int
 	closed   bool
-	taken    int // number of values received so far (for the unbuffered handshake)
-	sent     int
 }
 
 type scheduler struct {
@@ -52,7 +70,7 @@ type scheduler struct {
 }
 
 func newScheduler(in *interpreter, preempts int) *scheduler {
-	main := &gthread{id: 0, wake: make(chan bool)}
+	main := &gthread{id: 0, wake: make(chan bool), sentIdx: -1}
 	return &scheduler{in: in, threads: []*gthread{main}, cur: main, preempts: preempts,
 		chans: map[chan value]*chanState{}, wgs: map[*value]*int{}, onces: map[*value]int{}, maxSteps: 20000}
 }
@@ -63,7 +81,6 @@ func (s *scheduler) isEnabled(t *gthread) bool {
 
 // park blocks the calling host goroutine until it is scheduled again.
 func (s *scheduler) park(t *gthread) {
-	t.parked = true
 	ok := <-t.wake
 	t.parked = false
 	if !ok {
@@ -83,6 +100,8 @@ func (s *scheduler) switchTo(next *gthread) {
 		return
 	}
 	cur.depth = s.in.depth
+	cur.pos = s.in.curPos()
+	cur.parked = true // before the next goroutine runs: it inspects who is parked
 	s.cur = next
 	next.wake <- true
 	s.park(cur)
@@ -91,7 +110,13 @@ func (s *scheduler) switchTo(next *gthread) {
 // yield is a scheduling point of the running goroutine; cond (may be nil) is the condition
 // under which it can perform its next operation. yield returns when the goroutine has been
 // chosen to continue and cond holds.
-func (s *scheduler) yield(cond func() bool, recvOn ...chan value) {
+func (s *scheduler) yield(cond func() bool) {
+	s.yieldOffering(cond, nil, nil)
+}
+
+// yieldOffering is yield for a goroutine that, while parked, can be a partner of a
+// rendezvous: it receives on recvOn and offers the sends sendOn.
+func (s *scheduler) yieldOffering(cond func() bool, recvOn []chan value, sendOn []sendOffer) {
 	in := s.in
 	if in.runningEnsure {
 		return
@@ -102,7 +127,7 @@ func (s *scheduler) yield(cond func() bool, recvOn ...chan value) {
 	}
 	cur := s.cur
 	selfOK := cond == nil || cond()
-	cur.enabled, cur.recvOn = cond, recvOn
+	cur.enabled, cur.recvOn, cur.sendOn = cond, recvOn, sendOn
 	var cands []*gthread
 	for _, t := range s.threads {
 		if t == cur {
@@ -113,8 +138,15 @@ func (s *scheduler) yield(cond func() bool, recvOn ...chan value) {
 			cands = append(cands, t)
 		}
 	}
+	if schedDebug {
+		ids := ""
+		for _, c := range cands {
+			ids += fmt.Sprintf(" g%d", c.id)
+		}
+		fmt.Fprintf(os.Stderr, "[sched] g%d at %s selfOK=%v recv=%d send=%d cands=%s\n", cur.id, in.curPos(), selfOK, len(recvOn), len(sendOn), ids)
+	}
 	if len(cands) == 0 {
-		cur.enabled, cur.recvOn = nil, nil
+		cur.enabled, cur.recvOn, cur.sendOn = nil, nil, nil
 		panic(targetHang{s.describeHang()})
 	}
 	next := cands[0]
@@ -130,22 +162,27 @@ func (s *scheduler) yield(cond func() bool, recvOn ...chan value) {
 		s.switchTo(next)
 		// resumed: we were chosen, so cond holds
 	}
-	cur.enabled, cur.recvOn = nil, nil
+	cur.enabled, cur.recvOn, cur.sendOn = nil, nil, nil
 }
 
 func (s *scheduler) describeHang() string {
-	blocked := 0
+	var parts []string
 	for _, t := range s.threads {
-		if !t.done {
-			blocked++
+		if t.done {
+			continue
 		}
+		pos := t.pos
+		if t == s.cur {
+			pos = s.in.curPos()
+		}
+		parts = append(parts, fmt.Sprintf("g%d at %s", t.id, pos))
 	}
-	return fmt.Sprintf("deadlock: all %d live goroutines are blocked", blocked)
+	return fmt.Sprintf("deadlock: all %d live goroutines are blocked (%s)", len(parts), strings.Join(parts, "; "))
 }
 
 func (s *scheduler) spawn(fn value, args []value) {
 	in := s.in
-	t := &gthread{id: len(s.threads), wake: make(chan bool)}
+	t := &gthread{id: len(s.threads), wake: make(chan bool), sentIdx: -1}
 	s.threads = append(s.threads, t)
 	go func() {
 		if ok := <-t.wake; !ok {
@@ -255,17 +292,33 @@ func (s *scheduler) chanOf(ch chan value) *chanState {
 	return cs
 }
 
-func (s *scheduler) receiverWaiting(ch chan value) bool {
+// parkedReceiver: a goroutine parked in a receive (or select with a receive case) on ch
+// that has not been served yet.
+func (s *scheduler) parkedReceiver(ch chan value) *gthread {
 	for _, t := range s.threads {
-		if t != s.cur && !t.done && t.parked {
+		if t != s.cur && !t.done && t.parked && t.got == nil && t.sentIdx < 0 {
 			for _, c := range t.recvOn {
 				if c == ch {
-					return true
+					return t
 				}
 			}
 		}
 	}
-	return false
+	return nil
+}
+
+// parkedSender: a goroutine parked in a send (or select with a send case) on ch.
+func (s *scheduler) parkedSender(ch chan value) (*gthread, *sendOffer) {
+	for _, t := range s.threads {
+		if t != s.cur && !t.done && t.parked && t.got == nil && t.sentIdx < 0 {
+			for i := range t.sendOn {
+				if t.sendOn[i].ch == ch {
+					return t, &t.sendOn[i]
+				}
+			}
+		}
+	}
+	return nil, nil
 }
 
 func (s *scheduler) sendReady(ch chan value, cs *chanState) bool {
@@ -273,9 +326,49 @@ func (s *scheduler) sendReady(ch chan value, cs *chanState) bool {
 		return true
 	}
 	if cs.capacity == 0 {
-		return len(cs.buf) == 0 && s.receiverWaiting(ch)
+		return s.parkedReceiver(ch) != nil
 	}
 	return len(cs.buf) < cs.capacity
+}
+
+func (s *scheduler) recvReady(ch chan value, cs *chanState) bool {
+	if len(cs.buf) > 0 || cs.closed {
+		return true
+	}
+	if cs.capacity == 0 {
+		t, _ := s.parkedSender(ch)
+		return t != nil
+	}
+	return false
+}
+
+// doSend performs a send that is ready.
+func (s *scheduler) doSend(ch chan value, cs *chanState, v value) {
+	if cs.closed {
+		panic(targetPanic{iface{s.in.runtimeErrorString, "send on closed channel"}})
+	}
+	if cs.capacity == 0 {
+		r := s.parkedReceiver(ch)
+		r.got = &handoff{ch, v}
+		return
+	}
+	cs.buf = append(cs.buf, v)
+}
+
+// doRecv performs a receive that is ready.
+func (s *scheduler) doRecv(ch chan value, cs *chanState) (value, bool) {
+	if len(cs.buf) > 0 {
+		v := cs.buf[0]
+		cs.buf = cs.buf[1:]
+		return v, true
+	}
+	if cs.capacity == 0 {
+		if t, off := s.parkedSender(ch); t != nil {
+			t.sentIdx = off.idx
+			return off.v, true
+		}
+	}
+	return nil, false // closed
 }
 
 func (s *scheduler) send(ch chan value, v value) {
@@ -283,17 +376,13 @@ func (s *scheduler) send(ch chan value, v value) {
 		s.yield(func() bool { return false })
 	}
 	cs := s.chanOf(ch)
-	s.yield(func() bool { return s.sendReady(ch, cs) })
-	if cs.closed {
-		panic(targetPanic{iface{s.in.runtimeErrorString, "send on closed channel"}})
+	cur := s.cur
+	s.yieldOffering(func() bool { return cur.sentIdx >= 0 || s.sendReady(ch, cs) }, nil, []sendOffer{{ch, v, 0}})
+	if cur.sentIdx >= 0 {
+		cur.sentIdx = -1 // a receiver took the value while we were parked
+		return
 	}
-	cs.buf = append(cs.buf, v)
-	cs.sent++
-	if cs.capacity == 0 {
-		// rendezvous: continue once the value has been taken
-		mine := cs.sent
-		s.yield(func() bool { return cs.taken >= mine || cs.closed })
-	}
+	s.doSend(ch, cs, v)
 }
 
 func (s *scheduler) recv(ch chan value) (value, bool) {
@@ -301,14 +390,14 @@ func (s *scheduler) recv(ch chan value) (value, bool) {
 		s.yield(func() bool { return false })
 	}
 	cs := s.chanOf(ch)
-	s.yield(func() bool { return len(cs.buf) > 0 || cs.closed }, ch)
-	if len(cs.buf) > 0 {
-		v := cs.buf[0]
-		cs.buf = cs.buf[1:]
-		cs.taken++
+	cur := s.cur
+	s.yieldOffering(func() bool { return cur.got != nil || s.recvReady(ch, cs) }, []chan value{ch}, nil)
+	if cur.got != nil {
+		v := cur.got.v
+		cur.got = nil
 		return v, true
 	}
-	return nil, false
+	return s.doRecv(ch, cs)
 }
 
 func (s *scheduler) closeChan(ch chan value) {
@@ -333,8 +422,10 @@ func (s *scheduler) selectStmt(fr *frame, instr *ssa.Select) value {
 		cs   *chanState
 		recv bool
 	}
+	cur := s.cur
 	cases := make([]selCase, len(instr.States))
 	var recvOn []chan value
+	var sendOn []sendOffer
 	for i, st := range instr.States {
 		ch, _ := fr.get(st.Chan).(chan value)
 		cases[i] = selCase{ch: ch, recv: st.Dir == types.RecvOnly}
@@ -342,6 +433,8 @@ func (s *scheduler) selectStmt(fr *frame, instr *ssa.Select) value {
 			cases[i].cs = s.chanOf(ch)
 			if cases[i].recv {
 				recvOn = append(recvOn, ch)
+			} else {
+				sendOn = append(sendOn, sendOffer{ch, fr.get(st.Send), i})
 			}
 		}
 	}
@@ -351,48 +444,44 @@ func (s *scheduler) selectStmt(fr *frame, instr *ssa.Select) value {
 			if c.ch == nil {
 				continue
 			}
-			if c.recv {
-				if len(c.cs.buf) > 0 || c.cs.closed {
-					out = append(out, i)
-				}
-			} else if s.sendReady(c.ch, c.cs) {
+			if c.recv && s.recvReady(c.ch, c.cs) || !c.recv && s.sendReady(c.ch, c.cs) {
 				out = append(out, i)
 			}
 		}
 		return out
 	}
 	if instr.Blocking {
-		s.yield(func() bool { return len(ready()) > 0 }, recvOn...)
+		s.yieldOffering(func() bool { return cur.got != nil || cur.sentIdx >= 0 || len(ready()) > 0 }, recvOn, sendOn)
 	} else {
 		s.yield(nil)
 	}
-	rs := ready()
 	chosen := -1
-	if len(rs) > 0 {
-		chosen = rs[0]
-		if len(rs) > 1 {
-			chosen = rs[s.in.chooseIndex(len(rs), "select")]
-		}
-	}
 	recvOk := false
 	var recv value
-	if chosen >= 0 {
-		c := cases[chosen]
-		if c.recv {
-			if len(c.cs.buf) > 0 {
-				recv, recvOk = c.cs.buf[0], true
-				c.cs.buf = c.cs.buf[1:]
-				c.cs.taken++
+	switch {
+	case cur.got != nil:
+		for i, c := range cases {
+			if c.recv && c.ch == cur.got.ch {
+				chosen = i
 			}
-		} else {
-			if c.cs.closed {
-				panic(targetPanic{iface{s.in.runtimeErrorString, "send on closed channel"}})
+		}
+		recv, recvOk = cur.got.v, true
+		cur.got = nil
+	case cur.sentIdx >= 0:
+		chosen = cur.sentIdx
+		cur.sentIdx = -1
+	default:
+		rs := ready()
+		if len(rs) > 0 {
+			chosen = rs[0]
+			if len(rs) > 1 {
+				chosen = rs[s.in.chooseIndex(len(rs), "select")]
 			}
-			c.cs.buf = append(c.cs.buf, fr.get(instr.States[chosen].Send))
-			c.cs.sent++
-			if c.cs.capacity == 0 {
-				mine := c.cs.sent
-				s.yield(func() bool { return c.cs.taken >= mine || c.cs.closed })
+			c := cases[chosen]
+			if c.recv {
+				recv, recvOk = s.doRecv(c.ch, c.cs)
+			} else {
+				s.doSend(c.ch, c.cs, fr.get(instr.States[chosen].Send))
 			}
 		}
 	}
@@ -497,7 +586,7 @@ func init() {
 // spawnWithExit starts fn() and runs atExit when it returns normally.
 func (s *scheduler) spawnWithExit(fn value, atExit func()) {
 	in := s.in
-	t := &gthread{id: len(s.threads), wake: make(chan bool)}
+	t := &gthread{id: len(s.threads), wake: make(chan bool), sentIdx: -1}
 	s.threads = append(s.threads, t)
 	go func() {
 		if ok := <-t.wake; !ok {
